@@ -845,6 +845,7 @@ func checkC16(p *Prog, r *Report) {
 	ruleAnchorUniform(p, r)
 	ruleMapIterators(p, r)
 	ruleNoNondetSources(p, r)
+	ruleNoClockInComputation(p, r)
 	r.Trusted = []string{"go/ssa construction", "sort/slices/maps.Keys+Sorted are deterministic functions of their input",
 		"distinct entries of one map do not alias each other's memory (stated assumption for ELEMSTORE)",
 		"standard-library functions not listed in libWrites (effects.go) do not write through their arguments"}
@@ -932,6 +933,70 @@ func ruleNoNondetSources(p *Prog, r *Report) {
 		r.ok("R16.2", "no-nondeterminism-source", "", "no goroutine, select, random source or %p in production code")
 	}
 	r.floor("R16.2", "clock call sites", tn, 1)
+}
+
+// ruleNoClockInComputation: R16.6 — what is computed from the two configurations does not
+// depend on how long the computation takes.
+func ruleNoClockInComputation(p *Prog, r *Report) {
+	r.rule("R16.6", "Parsing, merging and planning do not consult the clock or the scheduler: no function reachable (VTA call graph) from a method ParseConfig, MergeSpoc, GetChanges or ShowChanges of the module calls time.Now / Since / Until / After / AfterFunc / NewTimer / NewTicker / Tick / Sleep, context.WithTimeout / WithDeadline (and their Cause variants), os.Getpid / Getppid / Hostname, runtime.Gosched / NumGoroutine / NumCPU / GOMAXPROCS or anything of math/rand. A result that depends on how long a diff took differs between two runs on the same input (a deadline that falls back to another plan).")
+	forbidden := func(f *ssa.Function) bool {
+		if f.Pkg == nil {
+			return false
+		}
+		switch f.Pkg.Pkg.Path() {
+		case "math/rand", "math/rand/v2", "crypto/rand":
+			return true
+		}
+		switch shortName(f) {
+		case "time.Now", "time.Since", "time.Until", "time.After", "time.AfterFunc", "time.NewTimer", "time.NewTicker", "time.Tick", "time.Sleep",
+			"context.WithTimeout", "context.WithDeadline", "context.WithTimeoutCause", "context.WithDeadlineCause",
+			"os.Getpid", "os.Getppid", "os.Hostname",
+			"runtime.Gosched", "runtime.NumGoroutine", "runtime.NumCPU", "runtime.GOMAXPROCS":
+			return true
+		}
+		return false
+	}
+	cg := p.CG()
+	nRoots := 0
+	for _, root := range allModFuncs(p) {
+		if root.Parent() != nil || root.Synthetic != "" || root.Signature.Recv() == nil {
+			continue
+		}
+		switch root.Name() {
+		case "ParseConfig", "MergeSpoc", "GetChanges", "ShowChanges":
+		default:
+			continue
+		}
+		nRoots++
+		seen := map[*ssa.Function]bool{}
+		var bad []string
+		var walk func(f *ssa.Function)
+		walk = func(f *ssa.Function) {
+			if seen[f] {
+				return
+			}
+			seen[f] = true
+			n := cg.Nodes[f]
+			if n == nil {
+				return
+			}
+			for _, e := range n.Out {
+				c := e.Callee.Func
+				if forbidden(c) {
+					bad = append(bad, shortName(f)+" -> "+shortName(c)+" at "+p.ipos(e.Site))
+					continue
+				}
+				if isModFunc(c) {
+					walk(c)
+				}
+			}
+		}
+		walk(root)
+		sort.Strings(bad)
+		r.add("R16.6", "no-clock|"+shortName(root), p.pos(root.Pos()), fmt.Sprintf("%d functions reachable from %s consult neither clock nor scheduler", len(seen), shortName(root)), len(bad) == 0,
+			"the result of the computation depends on time or scheduling: "+strings.Join(bad, "; "))
+	}
+	r.floor("R16.6", "ParseConfig / MergeSpoc / GetChanges / ShowChanges methods", nRoots, 15)
 }
 
 // ruleMapIterators: R16.5 — map iterators (maps.Keys/Values/All) are only fed
